@@ -29,6 +29,16 @@ def run(tier):
         for fn, callees in sorted(sites.items()):
             rep.violated("R09.noexcept@%s" % fn, "R09.noexcept", "%s is noexcept but calls %s which may throw (an element or allocator exception becomes std::terminate)" % (fn, sorted(callees)[0][:100]),
                          dict(function=fn, may_throw_callees=sorted(callees)))
+        # the same scan with an element type whose moves are noexcept and whose copies may throw (std::string-like): conditional noexcept
+        # specifications that consult the wrong trait only show up for such a type
+        mod2 = ownrules.module(wd, D, prelude="#define TRACKED_NOTHROW_MOVE 1", tag="D%d_ntm" % D)
+        sites2 = ownrules.noexcept_sites(mod2)
+        for fn, callees in sorted(sites2.items()):
+            if fn in sites:
+                continue
+            rep.violated("R09.noexcept@%s" % fn, "R09.noexcept", "%s is noexcept for an element type with noexcept moves and throwing copies, but calls %s which may throw "
+                         "(the exception becomes std::terminate)" % (fn, sorted(callees)[0][:100]), dict(function=fn, may_throw_callees=sorted(callees), element="nothrow-move"))
+        rep.ok("R09.noexcept.scan(nothrow-move element)#%s" % tag, "R09.noexcept", dict(with_terminate_sites=len(sites2)))
         checked = [f for f in mod.mod.funcs.values() if "boost::multi" in f.demangled]
         rep.ok("R09.noexcept.scan#%s" % tag, "R09.noexcept", dict(functions_scanned=len(checked), with_terminate_sites=len(sites)))
         nhelpers += ownrules.rollback_rule(rep, mod, tag)
